@@ -235,4 +235,57 @@ def attempts (prior : Option ConnError) (dh : Text) (dp : Nat) (tp : Transport) 
     let r := attempt servers prior dh dp tp ok
     (errorAfterHook servers prior dh dp tp, r.1) :: attempts r.2 dh dp tp rest
 
+/-! ### the listener set per instance start / stop event (an update in flight)
+
+`Servers.update` does not change the listener set atomically: it first replaces `_instances` (the new dict
+lists the kept and the not-yet-started instances), then the stop tasks run, then the start tasks; every
+stop / start completes on its own.  `listed` = the keys of `_instances`, `target` = the keys of
+`new_instances` of the update in flight, `bound` = the instances whose sockets are listening right now.
+The guard sees the listed instances with the sockets they have at that moment. -/
+
+structure LState where
+  listed : List Nat
+  target : List Nat
+  bound : List (Nat × Server)
+
+inductive LEv where
+  | beginUpdate (serverOpt : Bool) (modes : List Nat)   -- `self._instances = new_instances`
+  | stopped (k : Nat)                                    -- a stop task has closed its sockets
+  | stopsDone                                            -- all stop tasks gathered
+  | started (k : Nat) (s : Server)                       -- a start task has bound its sockets
+  | connect (dh : Text) (dp : Nat) (tp : Transport) (connectOk : Bool)
+
+/-- what `for server in self.servers: server.listen_addrs` yields at this moment -/
+def LState.guardView (st : LState) : List Server :=
+  (st.bound.filter fun e => st.listed.contains e.1).map (·.2)
+
+/-- every socket that is listening right now -/
+def LState.listening (st : LState) : List Server := st.bound.map (·.2)
+
+def lstep (st : LState) : LEv → LState
+  | .beginUpdate so modes =>
+    let target := if so then modes else []
+    -- instances that are going away stay listed until their stop task is through
+    { listed := target ++ st.listed.filter (fun k => !target.contains k), target := target, bound := st.bound }
+  | .stopped k => { st with bound := st.bound.filter fun e => e.1 != k }
+  | .stopsDone =>
+    { st with listed := st.target, bound := st.bound.filter fun e => st.target.contains e.1 }
+  | .started k s =>
+    if st.listed.contains k then { st with bound := (k, s) :: st.bound.filter fun e => e.1 != k } else st
+  | .connect _ _ _ _ => st
+
+def lout (st : LState) : LEv → Option (List Ev)
+  | .connect dh dp tp ok => some (openTrace st.guardView dh dp tp ok)
+  | _ => none
+
+def lstateAfter (st : LState) : List LEv → LState
+  | [] => st
+  | e :: es => lstateAfter (lstep st e) es
+
+def lrun (st : LState) : List LEv → List (Option (List Ev))
+  | [] => []
+  | e :: es => lout st e :: lrun (lstep st e) es
+
+def LState.empty : LState := ⟨[], [], []⟩
+
 end MitmVerif.C23
